@@ -36,6 +36,9 @@ pub fn special_strings(rng: &mut Rng) -> Vec<u8> {
         b"endstream", b"endobj", b"\r\nendstream\r\n", b"(()", b"())", b"\\", b"\\)", b"a\rb", b"a\r\nb", b"a\nb",
         b"\\053", b"#20", b"1 0 R", b"<<>>", b"stream\n", b"%%EOF", b"startxref", b"((((((((((", b"))))))))))",
         b"\\\r\n", b"\\\r", b"x\\", b"(\\", b")(", b"\r", b"\n", b"\r\r\n\n",
+        // file-structure look-alikes inside data (an embedded PDF tail, a fake xref / trailer / object)
+        b"startxref\n5\n%%EOF", b"\nstartxref\r\n0\r\n%%EOF\r\n", b"xref\n0 1\n0000000000 65535 f \ntrailer\n<</Size 1>>\nstartxref\n0\n%%EOF\n",
+        b"1 0 obj\n<<>>\nendobj\n", b"trailer<</Root 1 0 R>>", b"%PDF-1.4\n",
     ];
     rng.pick(xs).to_vec()
 }
